@@ -5,7 +5,7 @@ import json, os, subprocess, sys, glob, re
 ROOT='/verif/seeded'
 EXTRA={'C01-8':['C02'],'C01-9':['C02'],'C04-6':['C03'],'C05-8':['C17'],'C17-5':['C13'],'C04-4':['C03'],'C02-5':['C16'],'C12-3':['C10'],'C01-2':['C03','C04'],'C01-4':['C17'],'C05-4':['C17'],'C02-1':['C16'],'C07-2':['C17','C18'],'C03-1':[]}
 only=set(sys.argv[1:])
-for d in sorted(glob.glob(ROOT+'/*')):
+for d in sorted(glob.glob(ROOT+'/C*-*')):
     name=os.path.basename(d)
     if only and name not in only: continue
     if os.path.exists(d+'/meta.json') and not only: continue
